@@ -14,7 +14,8 @@ from vf.common import MachineryError
 
 PROP = "C18"
 RESERVED = ("_source", "_classification", "_generated", "_version")
-TBL = {"ta": "select/from", "tb": "Tb/x"}
+TBL = {"ta": "select/from", "tb": "Tb/x", "tc": "sqlitex/history"}
+TABLE_OF = {"A": "ta", "Aplus": "ta", "Aplus2": "ta", "B": "tb", "C": "tc"}
 
 
 def descs():
@@ -23,6 +24,8 @@ def descs():
     return {
         "A": RecordDescriptor("select/from", [("string", "a"), ("varint", "n")]),
         "Aplus": RecordDescriptor("select/from", [("string", "a"), ("varint", "n"), ("float", "extra")]),
+        "Aplus2": RecordDescriptor("select/from", [("string", "a"), ("varint", "n"), ("float", "extra"), ("string", "extra2")]),
+        "C": RecordDescriptor("sqlitex/history", [("string", "q")]),
         "B": RecordDescriptor("Tb/x", [("string", "q"), ("bytes", "b"), ("datetime", "ts"), ("path", "p"), ("net.ipaddress", "ip")]),
     }
 
@@ -46,6 +49,10 @@ def make(DESC, d, pool, rnd, rid):
         return DESC[d](c(pool["s"]), c(pool["i"]), **kw)
     if d == "Aplus":
         return DESC[d](c(pool["s"]), c(pool["i"]), c(pool["f"]), **kw)
+    if d == "Aplus2":
+        return DESC[d](c(pool["s"]), c(pool["i"]), c(pool["f"]), c(pool["s"]), **kw)
+    if d == "C":
+        return DESC[d](c(pool["s"]), **kw)
     return DESC[d](c(pool["s"]), c(pool["b"]), c(pool["d"]), c(pool["p"]), c(pool["ip"]), **kw)
 
 
@@ -112,7 +119,7 @@ def run_history(DESC, hist, tmp, rnd, pool, detail=None):
     w = SqliteWriter(p, batch_size=batch)
     obs = sqlite3.connect(p)
     tr = [{"op": "open", "batch": batch}]
-    written = {"ta": [], "tb": []}
+    written = {t: [] for t in TBL}
     rid = 0
     closed = False
     for op in ops:
@@ -123,7 +130,7 @@ def run_history(DESC, hist, tmp, rnd, pool, detail=None):
                 rec = make(DESC, op[1], pool, rnd, rid)
                 ev["d"] = op[1]
                 w.write(rec)
-                written["tb" if op[1] == "B" else "ta"].append((rid, rec))
+                written[TABLE_OF[op[1]]].append((rid, rec))
             elif op[0] == "flush":
                 w.flush()
             else:
@@ -141,20 +148,20 @@ def run_history(DESC, hist, tmp, rnd, pool, detail=None):
             pass
         return tr, None
     # read back with the library's reader
-    rows = {"ta": [], "tb": []}
+    rows = {t: [] for t in TBL}
     values_ok, cols_ok, why = True, True, None
     try:
         rd = SqliteReader(p)
         got = list(rd)
         rd.con.close()
-        bytable = {"ta": [], "tb": []}
+        bytable = {t: [] for t in TBL}
         for r in got:
             t = {v: k for k, v in TBL.items()}.get(r._desc.name)
             if t is None:
                 values_ok, why = False, f"unexpected table {r._desc.name}"
                 continue
             bytable[t].append(r)
-        for t in ("ta", "tb"):
+        for t in TBL:
             for r in bytable[t]:
                 try:
                     rows[t].append(int(r._source))
@@ -207,7 +214,7 @@ def random_hist(rnd, maxlen, maxbatch):
     ops = []
     for _ in range(rnd.randint(1, maxlen)):
         x = rnd.random()
-        ops.append(("flush",) if x < 0.12 else ("write", rnd.choice(["A", "A", "Aplus", "B"])))
+        ops.append(("flush",) if x < 0.12 else ("write", rnd.choice(["A", "A", "Aplus", "Aplus2", "B", "C"])))
     ops.append(("close",))
     return (rnd.randint(1, maxbatch), ops)
 
@@ -219,7 +226,7 @@ def hist_key(h):
 def run(tier):
     ctx = check.Ctx(PROP, tier)
     thorough = tier == "thorough"
-    ctx.design("Sqlite", "MC_Sqlite.cfg", "exhaustive: 3 descriptors (two share a table), <=6 writes, batch 1..4, flush/close anywhere",
+    ctx.design("Sqlite", "MC_Sqlite.cfg", "exhaustive: 5 descriptors (three share a table and grow by a field each), <=6 writes, batch 1..4, flush/close anywhere",
                actions=("Write", "Flush", "Close"), workers=8)
     if thorough:
         ctx.sensitivity("Sqlite", "MC_Sqlite_dev_CloseNoCommit.cfg", "close without commit must violate ClosedCommitted", "ClosedCommitted", workers=4)
@@ -270,7 +277,7 @@ def run(tier):
     if drift:
         ctx.note(f"model drift on {len(drift)} traces")
     ctx.count(len(traces), nev)
-    ctx.extra["rule"] = "histories = TLC-simulated behaviours of Sqlite.tla + seeded random op sequences (write A/Aplus/B, flush, close) with batch sizes 1..9; distinct = distinct (batch, op sequence)"
+    ctx.extra["rule"] = "histories = TLC-simulated behaviours of Sqlite.tla + seeded random op sequences (write A/Aplus/Aplus2/B/C, flush, close) with batch sizes 1..9; distinct = distinct (batch, op sequence)"
     ctx.extra["simulated_behaviours_replayed"] = nsim
     ctx.assumptions += ["values restricted to what the property names as SQLite-mappable: valid-UTF-8 text, 64-bit integers, finite floats, bytes, timestamps; other types compared by text form",
                         "one writer per database"]
